@@ -68,6 +68,28 @@ type v2Intn struct{ r *mrand2.Rand }
 
 func (s v2Intn) next(n int) int { return s.r.IntN(n) }
 
+// v1Read mirrors the shipped byte-to-character mapping (rejection sampling over bytes) on top of math/rand's Read:
+// the natural regression of the repaired generator to a guessable seed.
+type v1Read struct {
+	r   *mrand.Rand
+	buf []byte
+}
+
+func (s *v1Read) next(n int) int {
+	limit := 256 - 256%n
+	for {
+		if len(s.buf) == 0 {
+			s.buf = make([]byte, 128)
+			_, _ = s.r.Read(s.buf)
+		}
+		v := int(s.buf[0])
+		s.buf = s.buf[1:]
+		if v < limit {
+			return v % n
+		}
+	}
+}
+
 type family struct {
 	name string
 	mk   func(seed int64) intSrc
@@ -76,6 +98,7 @@ type family struct {
 var c06Families = []family{
 	{"math/rand-v1:Intn", func(s int64) intSrc { return v1Intn{mrand.New(mrand.NewSource(s))} }},
 	{"math/rand-v1:Int63%n", func(s int64) intSrc { return v1Mod{mrand.New(mrand.NewSource(s))} }},
+	{"math/rand-v1:Read+rejection", func(s int64) intSrc { return &v1Read{r: mrand.New(mrand.NewSource(s))} }},
 	{"math/rand-v2-pcg(seed,0)", func(s int64) intSrc { return v2Intn{mrand2.New(mrand2.NewPCG(uint64(s), 0))} }},
 	{"math/rand-v2-pcg(seed,seed)", func(s int64) intSrc { return v2Intn{mrand2.New(mrand2.NewPCG(uint64(s), uint64(s)))} }},
 }
